@@ -32,16 +32,19 @@ EMITTERS = {
     "global_get": ("wasmCWriteGlobalGetExpr", GENERIC), "global_set": ("wasmCWriteGlobalSetExpr", GENERIC),
     "memory_size": ("wasmCWriteMemorySizeExpr", GENERIC), "memory_grow": ("wasmCWriteMemoryGrowExpr", GENERIC),
     "dispatch": ("wasmCWriteFunctionCode", [("nop", ["DISP=0"]), ("drop", ["DISP=1"]), ("unreachable_then_dead", ["DISP=2"]), ("br_then_dead", ["DISP=3"]), ("dead_until_else", ["DISP=4"]), ("return", ["DISP=5"])]),
+    "dead": ("wasmCWriteLoadExpr", [("global_get", ["DEAD_WHICH=0"]), ("global_set", ["DEAD_WHICH=1"]), ("load", ["DEAD_WHICH=2"]), ("store", ["DEAD_WHICH=3"]), ("call", ["DEAD_WHICH=4"]), ("call_indirect", ["DEAD_WHICH=5"]), ("br", ["DEAD_WHICH=6"]), ("br_if", ["DEAD_WHICH=7"]), ("br_table", ["DEAD_WHICH=8"]), ("memory_grow", ["DEAD_WHICH=9"])]),
     "ignored": ("wasmCWriteLocalGetExpr", [("local_get", ["IGN_WHICH=0"]), ("local_set", ["IGN_WHICH=1"]), ("local_tee", ["IGN_WHICH=2"]), ("const", ["IGN_WHICH=3"])]),
 }
-SRC = {"dispatch": "e_dispatch.c", "global_get": "e_more.c", "global_set": "e_more.c", "memory_size": "e_more.c", "memory_grow": "e_more.c"}
-ALL_VARIANTS_IN_QUICK = {"ignored", "br", "br_if", "dispatch"}
+SRC = {"dead": "e_dead.c", "dispatch": "e_dispatch.c", "global_get": "e_more.c", "global_set": "e_more.c", "memory_size": "e_more.c", "memory_grow": "e_more.c"}
+ALL_VARIANTS_IN_QUICK = {"ignored", "br", "br_if", "dispatch", "dead"}
 EXTRA_FUNCS = {
     "load": ["c.c:wasmCWriteStringMemoryUse"], "store": ["c.c:wasmCWriteStringMemoryUse"],
     "local_get": ["module.h:wasmModuleFunctionGetLocalType", "locals.h:wasmLocalsDeclarationsGetType", "instruction.c:wasmLocalInstructionRead", "leb128.h:leb128ReadU32", "c.c:wasmCWriteStringLocalName"],
     "local_get_invalid": ["module.h:wasmModuleFunctionGetLocalType", "locals.h:wasmLocalsDeclarationsGetType"],
     "local_assign": ["module.h:wasmModuleFunctionGetLocalType", "locals.h:wasmLocalsDeclarationsGetType", "instruction.c:wasmLocalInstructionRead", "c.c:wasmCWriteStringLocalName"],
     "ignored": ["c.c:wasmCWriteLocalAssignmentExpr", "c.c:wasmCWriteConstExpr", "instruction.c:wasmLocalInstructionRead", "instruction.c:wasmConstInstructionRead"],
+    "dead": ["c.c:wasmCWriteGlobalGetExpr", "c.c:wasmCWriteGlobalSetExpr", "c.c:wasmCWriteStoreExpr", "c.c:wasmCWriteCallExpr", "c.c:wasmCWriteCallIndirectExpr", "c.c:wasmCWriteBranchExpr",
+             "c.c:wasmCWriteBranchIfExpr", "c.c:wasmCWriteBranchTableExpr", "c.c:wasmCWriteMemoryGrowExpr", "instruction.c:wasmBranchTableInstructionRead", "instruction.c:wasmMemoryArgumentInstructionRead"],
     "dispatch": ["c.c:wasmCWriteGoto", "c.c:wasmCWriteBranchExpr", "opcode.h:wasmOpcodeRead"],
     "br": ["c.c:wasmCWriteGoto", "labelstack.h:wasmLabelStackGetTopIndex", "instruction.c:wasmBranchInstructionRead", "c.c:wasmCWriteStringLabelName"],
     "br_if": ["c.c:wasmCWriteGoto", "labelstack.h:wasmLabelStackGetTopIndex", "instruction.c:wasmBranchInstructionRead", "c.c:wasmCWriteStringLabelName"],
